@@ -49,9 +49,19 @@ def written_params(f):
     bare parameter name when it is never rebound by plain assignment (array augmented assignment is in place)."""
     params = set(f.params)
     rebound = {t.id for t, st, how in stores(f.node) if isinstance(t, ast.Name) and how == 'bind'}
+    # a local bound (once, or always to a view of the same parameter) to a row / slice of a parameter is a second name for its storage
+    views = {}
+    for t, st, how in stores(f.node):
+        if isinstance(t, ast.Name) and how == 'bind' and isinstance(st, ast.Assign) and isinstance(st.value, ast.Subscript) and root_name(st.value) in params and t.id not in params:
+            views.setdefault(t.id, set()).add(root_name(st.value))
+        elif isinstance(t, ast.Name) and how == 'bind' and t.id not in params:
+            views.setdefault(t.id, set()).add(None)
+    views = {k: next(iter(v)) for k, v in views.items() if len(v) == 1 and None not in v}
     out = {}
     for t, st, how in stores(f.node):
         r = root_name(t)
+        if r in views and isinstance(t, ast.Subscript):
+            r = views[r]
         if r not in params:
             continue
         if isinstance(t, ast.Subscript) or (isinstance(t, ast.Name) and how == 'aug' and r not in rebound):
